@@ -12,11 +12,13 @@
 
   F14.  The original code prints the seconds *after* splitting, so seconds in
   [59.995, 60) come out as `60.00`.  `carry = true` models the repaired code
-  (notes/proposed/C18-gon2deg-carry.diff); which one the tree contains is regenerated into
-  Gama/Gen/AngleCarry.lean on every run.
+  (notes/proposed/C18-gon2deg-carry.diff).  The original also keeps `-0.0` (`gon < 0` is
+  false) whose seconds print as `-0.00`; `absFix = true` models `std::fabs`
+  (notes/proposed/C18-gon2deg-negzero.diff).  Which variants the tree contains is regenerated
+  into Gama/Gen/GeoVariants.lean on every run.
 -/
 import Gama.Model.GeoScalar
-import Gama.Gen.AngleCarry
+import Gama.Gen.GeoVariants
 namespace Gama.Angles
 open Gama Scalar Transc Trunc
 
@@ -68,10 +70,14 @@ def splitDeg (neg : Bool) (x : K) : Fields K :=
   let x := x * Scalar.ofNat 60
   { neg, d, m, s := x }
 
+/-- `if (negative) x = -x;` (original) or `x = std::fabs(x);` (repaired) -/
+def dropSign (absFix : Bool) (negative : Bool) (x : K) : K :=
+  if absFix then Scalar.abs x else if negative then -x else x
+
 /-- `gon2deg`: `negative = gon < 0; if (negative) gon = -gon; gon *= 0.9; …` -/
-def gonFields (gon : K) : Fields K :=
+def gonFields (absFix : Bool) (gon : K) : Fields K :=
   let negative : Bool := gon < (0 : K)
-  let gon := if negative then -gon else gon
+  let gon := dropSign absFix negative gon
   splitDeg negative (gon * Scalar.dec 9 1)
 
 /-- what is printed: the three fields after formatting the seconds at `prec` decimals -/
@@ -82,21 +88,23 @@ structure Printed where
   /-- seconds · 10^prec, rounded as printed -/
   n : Int
   prec : Nat
+  /-- the seconds are the IEEE value `-0.0` (prints a `-`); only reachable in the original code -/
+  secNegZero : Bool := false
 deriving DecidableEq, Repr
 
 /-- format the seconds; the repaired code (`carry`) moves seconds that print as 60 into
     minutes and degrees -/
-def toPrinted (carry : Bool) (neg : Bool) (d m : Int) (s : Rat) (prec : Nat) : Printed :=
+def toPrinted (carry : Bool) (neg : Bool) (d m : Int) (s : Rat) (prec : Nat) (sz : Bool := false) : Printed :=
   let n := scaled s prec
   if carry && decide (60 * (10 : Int) ^ prec ≤ n) then
     let m1 := m + 1
     if m1 = 60 then { neg, d := d + 1, m := 0, n := scaled 0 prec, prec }
     else { neg, d, m := m1, n := scaled 0 prec, prec }
-  else { neg, d, m, n, prec }
+  else { neg, d, m, n, prec, secNegZero := sz }
 
 /-- seconds as they stand in the string (`setw(3+prec)`, fill `'0'`) -/
 def Printed.seconds (p : Printed) : String :=
-  padLeft '0' (3 + p.prec) (if p.n < 0 then "-" ++ renderScaled (-p.n).toNat p.prec else renderScaled p.n.toNat p.prec)
+  padLeft '0' (3 + p.prec) (if p.n < 0 ∨ p.secNegZero then "-" ++ renderScaled (-p.n).toNat p.prec else renderScaled p.n.toNat p.prec)
 
 def setChar (s : String) (i : Nat) (c : Char) : String :=
   String.ofList (s.toList.set i c)
@@ -132,13 +140,13 @@ def Printed.renderLatLong (p : Printed) : String :=
 variable [Exact K]
 
 /-- `gon2deg(gon, sign, prec)` / `gon2deg_str`; `none` for a non-finite value -/
-def gon2degWith (carry : Bool) (gon : K) (sign : Int) (prec : Nat) : Option String :=
-  let f := gonFields gon
-  (Exact.toRat? f.s).map fun s => (toPrinted carry f.neg f.d f.m s prec).renderGon sign
+def gon2degWith (carry absFix : Bool) (gon : K) (sign : Int) (prec : Nat) : Option String :=
+  let f := gonFields absFix gon
+  (Exact.toRat? f.s).map fun s => (toPrinted carry f.neg f.d f.m s prec (Exact.negZero f.s)).renderGon sign
 
 /-- the formatter the current tree contains -/
 def gon2deg (gon : K) (sign : Int) (prec : Nat) : Option String :=
-  gon2degWith Gen.gon2degCarry gon sign prec
+  gon2degWith Gen.gon2degCarry Gen.gon2degAbs gon sign prec
 
 section
 variable [Transc K]
@@ -148,17 +156,17 @@ def rad2degStr (rad : K) (sign : Int) (prec : Nat) : Option String :=
   gon2deg (rad / pi * Scalar.ofNat 200) sign prec
 
 /-- latlong.cpp: `rad *= RAD_TO_DEG` is `rad *= 180.0/M_PI` -/
-def latlongFields (rad : K) : Fields K :=
+def latlongFields (absFix : Bool) (rad : K) : Fields K :=
   let neg : Bool := rad < (0 : K)
-  let rad := if neg then -rad else rad
+  let rad := dropSign absFix neg rad
   splitDeg neg (rad * (Scalar.ofNat 180 / pi))
 
-def latlongWith (carry : Bool) (rad : K) (prec : Nat) : Option String :=
-  let f := latlongFields rad
-  (Exact.toRat? f.s).map fun s => (toPrinted carry f.neg f.d f.m s prec).renderLatLong
+def latlongWith (carry absFix : Bool) (rad : K) (prec : Nat) : Option String :=
+  let f := latlongFields absFix rad
+  (Exact.toRat? f.s).map fun s => (toPrinted carry f.neg f.d f.m s prec (Exact.negZero f.s)).renderLatLong
 
 /-- `latitude(rad, prec)` = `longitude(rad, prec)` -/
-def latlong (rad : K) (prec : Nat) : Option String := latlongWith Gen.latlongCarry rad prec
+def latlong (rad : K) (prec : Nat) : Option String := latlongWith Gen.latlongCarry Gen.latlongAbs rad prec
 
 /-- `dms2rad(dms)`: `ddd.mmss…` to radians in [0, 2π) -/
 def dms2rad (fuel : Nat) (dms : K) : K :=
